@@ -3,14 +3,14 @@ from vlib import Harness, NCPU
 
 def plan(tier):
     hs = Harness("c12_seq", ["harness/c12_counting_ptr_seq.cpp"], flavor="asan")
-    ca = Harness("c12_conc_asan", ["harness/c12_counting_ptr_conc.cpp"], flavor="asan", shim=True)
-    ct = Harness("c12_conc_tsan", ["harness/c12_counting_ptr_conc.cpp"], flavor="tsan", shim=True)
+    ca = Harness("c12_conc_asan", ["harness/c12_counting_ptr_conc.cpp"], flavor="asan", shim=True, extra_flags=["-fno-access-control"])
+    ct = Harness("c12_conc_tsan", ["harness/c12_counting_ptr_conc.cpp"], flavor="tsan", shim=True, extra_flags=["-fno-access-control"])
     dl = "120" if tier == "quick" else "900"
     return {
         "harnesses": [hs, ca, ct],
         "runs": [(hs, ["--tier", tier], 2),
                  (ca, ["--tier", tier, "--deadline", dl], NCPU),
-                 (ct, ["--tier", tier, "--deadline", dl], NCPU)],
+                 (ct, ["--tier", tier, "--deadline", dl, "nostateful=1"], NCPU)],
         "rule": "sequential: BFS closure over all histories of handle operations on 3 CountingPtr<Obj> + 1 CountingPtr<Derived> variables "
                 "(<=2 objects alive, +clones by unify; second system: CountingPtrNoDelete), states de-duplicated on (variable -> object, real "
                 "reference counts, dynamic type); concurrent: every multiset of 2-3 per-thread scripts from {copy-drop, copy-of-copy, move-drop, "
